@@ -52,7 +52,7 @@ func init() {
 		work := e.work(lw)
 		chk := n > 0 && !e.query()
 		e.run(func() {
-			impl.Dgetri(e.fdim("n", n), fs(e, "shortA", a, chk), e.fld("lda", lda, max(1, n)), fx(e, "Ipiv", ipiv, chk), fs(e, "shortWork", work, true), e.flw(lw, mn))
+			impl.Dgetri(e.fdim("n", n), fs(e, "shortA", a, chk), e.fld("lda", lda, max(1, n)), fx(e, "Ipiv", ipiv, chk), e.fwork(work), e.flw(lw, mn))
 		})
 	})
 
